@@ -57,7 +57,12 @@ class ScriptedIO:
         from frappy.lib.asynconn import ConnectionClosed
         if not self.lines:
             raise ConnectionClosed()
-        return self.lines.pop(0)
+        x = self.lines.pop(0)
+        if callable(x):
+            # a live node: the line is produced (and time-stamped) only after the receiver has been waiting for a while
+            time.sleep(0.01)
+            x = x()
+        return x
 
     def send(self, data):
         self.sent.append(data)
@@ -229,6 +234,16 @@ class CacheMonitor:
                 elif shorthand == 'value' and action == 'changed':
                     action = 'update'
                 line = f'{action} {ident} {json.dumps([w, qual])}'
+                if rng.random() < 0.03:
+                    # stamped by the node with the current time, after the receiver has been idle for a moment
+                    holder = {}
+
+                    def live(_a=action, _i=ident, _w=w, _h=holder):
+                        _h['t'] = time.time()
+                        return f'{_a} {_i} {json.dumps([_w, {"t": _h["t"]}])}'.encode('utf-8')
+                    line = live
+                    t = holder
+                    kinds.add('live-timestamp')
                 script.append(('msg', (mn, iname), ('value', w, t, di)))
                 kinds.add(action)
             elif q < 0.65:
@@ -274,7 +289,7 @@ class CacheMonitor:
                 continue
             n0, e0, u0 = len(calls), len(errors), len(unhandled)
             before = dict(client.cache)
-            raw = line.encode('utf-8') if '\xff' not in line else b'\xff\xfe'
+            raw = line if callable(line) else line.encode('utf-8') if '\xff' not in line else b'\xff\xfe'
             client.io = ScriptedIO([raw])
             client._running = True
             client._shutdown.clear()
@@ -291,6 +306,12 @@ class CacheMonitor:
             leaving_now = [reg for reg in regs if reg[5] == 'leaving']
             for reg in leaving_now:
                 reg[5] = False
+            if callable(line):
+                # the line as it was really sent, with its time stamp
+                live_t = sc[2][2]['t']
+                sc = (sc[0], sc[1], sc[2][:2] + (live_t,) + sc[2][3:] + ('live',))
+                line = f'<live line stamped {live_t}>'
+                r.count('live_timestamps_checked')
             case = {'sub': 'cache', 'line': line[:300], 'pattern': pattern, 'kinds': sorted(kinds)}
             if sc[0] == 'msg':
                 key = sc[1]
@@ -349,7 +370,7 @@ class CacheMonitor:
         r.count('sequences')
         r.case(('cache', tuple(sorted(kinds)), tuple(pattern[:6])), bool(kinds & {'malformed', 'error_update', 'error_read', 'unknown'}))
         if r.want_sample():
-            r.sample({'messages': [l[:100] for l in lines if l][:6], 'callback_pattern': pattern[:6]})
+            r.sample({'messages': [(l[:100] if isinstance(l, str) else '<live line>') for l in lines if l][:6], 'callback_pattern': pattern[:6]})
 
     def importable(self, di, w):
         try:
@@ -363,7 +384,10 @@ class CacheMonitor:
         if entry is None:
             return 'missing'
         if exp[0] == 'value':
-            _, w, t, di = exp
+            _, w, t, di = exp[:4]
+            if exp[4:] == ('live',) and entry.timestamp != t:
+                # stamped by the node while the receiver was waiting: not in the future when it is processed, so it is kept as it is
+                return 'timestamp-of-live-message-changed'
             if entry.readerror is not None:
                 return 'error-instead-of-value'
             dt = self.get_datatype(di)
